@@ -86,8 +86,8 @@ pub open spec fn after(kw: Seq<char>, line: Seq<char>) -> Seq<char> { line.subra
 
 // the closure `unquoted` of parse_diff_header_line (its calls are directed to this region)
 //@ region src/handlers/diff_header.rs parse_diff_header_line optional=1
-//@sig pub fn unquoted_region(path: &str) -> (r: String)
-//@from <<<remove_surrounding_quotes(path).to_string()>>>
+//@sig pub fn unquoted_region(git_diff_name: bool, path: &str) -> (r: String)
+//@fromafter <<<let unquoted = |path: &str|>>>
 //@until <<<; match line {>>>
 //@| ensures r@ == unq(path@),  // @C14:the.paths.of.rename.and.copy.lines.lose.their.quotes.and.nothing.else
 
@@ -100,7 +100,7 @@ pub open spec fn after(kw: Seq<char>, line: Seq<char>) -> Seq<char> { line.subra
 //@|     !(is_prefix("--- "@, line@) || is_prefix("+++ "@, line@)) && !is_prefix("rename from "@, line@) && is_prefix("rename to "@, line@) ==> r.0@ == unq(after("rename to "@, line@)) && r.1 == FileEvent::Rename,
 //@|     !(is_prefix("--- "@, line@) || is_prefix("+++ "@, line@)) && !is_prefix("rename from "@, line@) && !is_prefix("rename to "@, line@) && is_prefix("copy from "@, line@) ==> r.0@ == unq(after("copy from "@, line@)) && r.1 == FileEvent::Copy,
 //@|     !(is_prefix("--- "@, line@) || is_prefix("+++ "@, line@)) && !is_prefix("rename from "@, line@) && !is_prefix("rename to "@, line@) && !is_prefix("copy from "@, line@) && is_prefix("copy to "@, line@) ==> r.0@ == unq(after("copy to "@, line@)) && r.1 == FileEvent::Copy,
-//@rewriteall <<<unquoted(>>> => <<<unquoted_region(>>>
+//@rewriteall <<<unquoted(>>> => <<<unquoted_region(git_diff_name, >>>
 //@rewrite <<<&line[offset..]>>> => <<<verif_str_from(line, offset)>>>
 //@rewrite <<<&line[12..]>>> => <<<verif_str_from(line, 12)>>>
 //@rewriteall <<<&line[10..]>>> => <<<verif_str_from(line, 10)>>>
